@@ -5,7 +5,7 @@ tests still pass there, run the quick checks with VERIF_REPO pointing at the scr
 tree and report which check catches which mutation.  Also applies the patches kept
 under /verif/seeded/<id>/patch.diff.  The scratch tree is removed afterwards.
 
-  selftest/mutants.py [name ...]      run the named mutants / seeded ids (default: all)
+  selftest/mutants.py [--expected-only] [name ...]   run the named mutants / seeded ids (default: all)
 """
 import json
 import os
@@ -186,7 +186,8 @@ def run_checks(wt, props, runs=None):
 
 
 def main():
-    want = sys.argv[1:]
+    want = [a for a in sys.argv[1:] if not a.startswith('--')]
+    expected_only = '--expected-only' in sys.argv[1:]     # faster regression pass: only the checks expected to catch
     wt = '/tmp/scratch/mutant-tree'
     rows = []
     items = []
@@ -215,7 +216,9 @@ def main():
                     continue
             ok, tail = run_tests(wt)
             t = time.time()
-            res = run_checks(wt, ALL_PROPS)
+            res = run_checks(wt, exp if (expected_only and exp) else ALL_PROPS)
+            for p in ALL_PROPS:
+                res.setdefault(p, (0, []))
             caught = [p for p in ALL_PROPS if res[p][0] == 1]
             errs = [p for p in ALL_PROPS if res[p][0] not in (0, 1)]
             verdict = 'CAUGHT' if set(exp) & set(caught) else ('SILENT-AS-EXPECTED' if not exp and not caught else 'MISSED')
@@ -226,7 +229,7 @@ def main():
                 print("      %s: %s" % (p, ' '.join(sorted(set(res[p][1])))))
             sys.stdout.flush()
             rows.append((name, ok, exp, caught, verdict))
-            if name.startswith('seeded/'):
+            if name.startswith('seeded/') and not expected_only:
                 mp = os.path.join(sd, name.split('/', 1)[1], 'meta.json')
                 m = json.load(open(mp))
                 m['caught_by'] = dict((p, sorted(set(o.replace('oracle=', '') for o in res[p][1]))) for p in caught)
